@@ -20,14 +20,14 @@ import (
 
 // Source is the template as found in the repository.
 type Source struct {
-	Prog     *load.Program
-	Var      *types.Var      // the package-level variable holding the text
-	Lit      *ast.BasicLit   // its initialiser
-	Text     string
-	Tree     *parse.Tree
-	Trees    map[string]*parse.Tree // associated templates ({{define}})
-	FuncsVar *types.Var                  // the FuncMap variable
-	Funcs    map[string]ast.Expr         // FuncMap entries by template name: a function literal or the name of a declared moq function
+	Prog      *load.Program
+	Var       *types.Var    // the package-level variable holding the text
+	Lit       *ast.BasicLit // its initialiser
+	Text      string
+	Tree      *parse.Tree
+	Trees     map[string]*parse.Tree // associated templates ({{define}})
+	FuncsVar  *types.Var             // the FuncMap variable
+	Funcs     map[string]ast.Expr    // FuncMap entries by template name: a function literal or the name of a declared moq function
 	FuncsInfo *types.Info
 	NodeCount map[string]int
 }
